@@ -81,6 +81,20 @@ def pipeReqsFrom (l : Link) (fl : Filler) (rnd : Nat → Rnd) : Nat → List Gen
 def pipeReqs (l : Link) (fl : Filler) (rnd : Nat → Rnd) (rs : List Gen.Req) : List Pipe.Req :=
   pipeReqsFrom l fl rnd 0 rs
 
+/-- the frames `Fill` builds over a request stream: one per request WITHOUT error that the filler serves, none
+    for a request that carries an error -/
+def probeFramesFrom (l : Link) (fl : Filler) (rnd : Nat → Rnd) : Nat → List Gen.Req → List Bytes
+  | _, [] => []
+  | i, r :: rs =>
+    (match r.err with
+     | some _ => []
+     | none => match fill l fl (fillReq l r) (rnd i) with
+       | .ok f => [f]
+       | .error _ => []) ++ probeFramesFrom l fl rnd (i + 1) rs
+
+def probeFrames (l : Link) (fl : Filler) (rnd : Nat → Rnd) (rs : List Gen.Req) : List Bytes :=
+  probeFramesFrom l fl rnd 0 rs
+
 /-- the `i`-th request as the generic engine's worker treats it: `r.Err != nil` or a call of `Scan`, whose answer
     is the oracle's (`orc`, arbitrary: the theorems quantify over it) -/
 def engReq (orc : Nat → Engine.Outcome) (i : Nat) (r : Gen.Req) : Engine.Req :=
